@@ -162,6 +162,14 @@ def make_plan(seed: int, tier: str, index: int) -> dict[str, Any]:
                         "est_steps": max(200, total_ops * s.choice([500, 1500, 3000]))}
     if sub == "long":
         knobs["retain_results"] = False
+    if schedule["mode"] != "sequential" and s.random() < 0.2:
+        # knob: pre-empt between bytecodes (sys.monitoring) instead of between source lines
+        schedule["granularity"] = "opcode"
+        if "est_steps" in schedule:
+            schedule["est_steps"] *= 4
+        for _ci, _k, op in all_ops:
+            if op.get("abort"):
+                op["abort"]["at"] *= 4
     plan: dict[str, Any] = {"property": PROP, "seed": seed, "sub_batch": sub, "corpus": corpus,
                             "clients": clients, "schedule": schedule, "knobs": knobs}
     if index % FRESH_EVERY[tier] == 0:
@@ -430,6 +438,7 @@ def execute(plan: dict[str, Any]) -> dict[str, Any]:
         "switches": sched.switches,
         "mid_op_switches": sched.mid_op_switches,
         "sched_mode": sched.mode,
+        "knobs": {"opcode_granularity": 1} if sched.granularity == "opcode" else {},
         "sub_batch": sub,
         "fresh_refs": fresh_refs,
         "counters": {"references_computed": len(refs)},
